@@ -49,7 +49,7 @@ class Prop:
     run_fn = "run15"
     shard = 150
     rule = ("typed trees: every ordered forest with <= N nodes (N=4 quick, 5 thorough) x kind assignments over "
-            "{a,b,c} (all for <=4 nodes, sampled beyond) plus seeded random trees up to 14 nodes; siblings may carry "
+            "{a,b,c} (all for <=4 nodes, sampled beyond) plus seeded random trees up to 14 nodes and wide forests (sibling lists up to ~18 nodes); siblings may carry "
             "equal-comparing data under different data_ids; queried kinds = every present kind, one absent kind and ANY_KIND, "
             "any_kind on/off, every node.  A case is one tree; distinct = distinct (shape, kinds, labels); "
             "non-trivial = at least one sibling list with two different kinds or two nodes of one kind")
@@ -90,6 +90,13 @@ class Prop:
             ks = [rng.randrange(rng.choice([1, 2, 3])) for _ in range(n)]
             nodes = B.shape_to_nodes(shape, lambda i, d, s, ks=ks: (i % len(univ), KINDS[ks[i]], f"id{i}"))
             yield dict(typed=True, univ=univ, nodes=nodes, query=KINDS)
+        # wide sibling lists (up to ~18 siblings of up to three kinds, all data equal-comparing): every position far from both ends
+        for _ in range(25 if tier == "quick" else 250):
+            n = rng.randint(10, 20)
+            shape = H.random_shape(rng, n, deep=rng.choice([0.0, 0.05, 0.2]))
+            ks = [rng.randrange(rng.choice([2, 3])) for _ in range(n)]
+            nodes = B.shape_to_nodes(shape, lambda i, d, s, ks=ks: (0, KINDS[ks[i]], f"id{i}"))
+            yield dict(typed=True, univ=["e:1"], nodes=nodes, query=KINDS)
 
     def shrink_candidates(self, desc):
         for nodes in B.drop_one_node(desc["nodes"]):
